@@ -129,8 +129,14 @@ pub async fn probe_reqrep(client: &Client, topic: &str) -> Result<(), String> {
         .open()
         .await
         .map_err(|e| format!("rep_open:{:?}", e))?;
+    // listen() returns an error when a request cannot be decoded (a raw peer's leftover request may
+    // be handed to this replier first): the probe's replier keeps serving
     let h = tokio::spawn(async move {
-        let _ = replier.listen().await;
+        loop {
+            if replier.listen().await.is_ok() {
+                break;
+            }
+        }
     });
     tokio::time::sleep(Duration::from_millis(80)).await;
     let res = async {
